@@ -25,3 +25,7 @@ func init() {
 		return run.Conclude(fs, nil)
 	}
 }
+
+func init() {
+	registry["C20"] = unit.CheckC20
+}
